@@ -69,6 +69,7 @@ type Object struct {
 	Name  string
 	Type  types.Type
 	Entry bool // existed at function entry (parameter-reachable)
+	Global bool
 	Root  string
 }
 
